@@ -61,6 +61,12 @@ def main(tier, seed, replay=None):
                                                  weights=["none", "pos", "zeros", "neg"][k % 4], noise=[0.02, 0.1, 0.5][rep % 3],
                                                  quant=(8 if k % 4 else None), probs=[0.683],
                                                  ctor=("new_parallel" if k % 5 == 0 else "new"), builder_made=(k % 4 == 2 and P <= M)))
+    # a parameter shared by two basis functions (its derivative matrix has two non-zero columns)
+    for j in range(6 if tier == "quick" else 80):
+        M = 2 + j % 3
+        cases.append(statsrun.gen_stats_case(rng, M, 2, M + 2 + rng.randint(3, 9), scalar=("f32" if j % 5 == 4 else "f64"),
+                                             weights=["none", "pos", "neg"][j % 3], noise=0.05, quant=(8 if j % 2 else None), probs=[0.683], shared=True,
+                                             builder_made=(j % 2 == 0)))
     # almost noise-free data: variances far below machine epsilon in absolute terms (the covariance scales with the noise, its
     # normalisation to correlations must not)
     for j in range(8 if tier == "quick" else 120):
